@@ -130,6 +130,8 @@ def generate(seed, tier):
         from sim import byz
         sc['byz'] = {'kind': r.choice(byz.KINDS_C11), 'seed': r.randrange(2 ** 31)}
         sc['meta']['byz'] = sc['byz']['kind']
+        if sc['byz']['kind'] == 'multi_proposal_request' and random.Random(f'C11mp:{seed}').random() < 0.6:
+            sc['byz']['opts'] = {'also_ike_auth': True}      # the CHILD_SA offer piggy-backed on IKE_AUTH is rewritten as well
         if sc['byz']['kind'] == 'invalid_ke_cross_offer':
             # IKE_SA and CHILD_SAs (PFS) use different groups; CHILD_SAs expire soon (their rekeys are CREATE_CHILD_SA exchanges with PFS started
             # by the IKE_SA that will later rekey itself), the IKE_SA a little later
@@ -419,7 +421,7 @@ def run(scenario):
             from sim import byz
             from sim.interpose import Interposer
             ip = ctx['ip'] = Interposer(w, ctx['tap'])
-            rule, verdict = byz.make(scenario['byz']['kind'], scenario['byz']['seed'], w, ip, ctx['tap'], ctx['reach'])
+            rule, verdict = byz.make(scenario['byz']['kind'], scenario['byz']['seed'], w, ip, ctx['tap'], ctx['reach'], scenario['byz'].get('opts'))
             ip.rules.append(rule)
             ctx['byz_verdict'] = verdict
             w.established_log = []
